@@ -3,6 +3,8 @@ import collections
 import common as C
 
 ID = "C13"
+# files this check also depends on (the quick tier runs at the thorough sizes when one of them differs from the fingerprinted tree)
+EXTRA_FILES = ['src/collisions.rs']
 COQ_TARGETS = ["Exec/Rrt.vo", "Properties/C13.vo"]
 THEOREMS = ["C13_path_ok", "C13_box_closed", "C13_cancel_before", "C13_cancel_at_iteration", "C13_triangle"]
 LEVEL_TEXT = ("Coq theorems by induction over planner iterations, for every collision predicate, every outcome of the random sampling, every "
